@@ -13,8 +13,8 @@ RULE = ("programs = every tests/**/*.asm of the repository (with its directory a
         "with several parameters / inner labels / nested expansion / sub-rule arguments, functions, prefix-sharing rule sets, "
         "#once graphs; G-fault programs of C13 with injected faults; G-banks programs of C06; G-tree include graphs of C14; "
         "G-expr data lines of C05) x option sets; + G-cli format strings and command lines of C18 (diagnostics of bad format "
-        "strings).  Each case: K sequential runs + 16 simultaneous threads in one process, twice with differently shuffled "
-        "histories (debug build) and once more in the release build; a sample of ~300 (quick) / all (thorough) programs and the "
+        "strings).  Each case in one process: K sequential runs + 16 simultaneous threads (debug build), K sequential runs after a differently "
+        "shuffled history (debug), K/2 sequential + 16 threads in the release build after a third history; a sample of ~300 (quick) / ~3000 incl. the whole corpus (thorough) programs and the "
         "command lines k times in FRESH processes of the real binary (stdout, stderr, exit status, every output file of a "
         "9-group command line compared byte for byte).  quick K = k = 4, thorough K = k = 32.  non-trivial = distinct program "
         "with >= 2 entries in some hash container (>= 2 sibling symbols, an asm block, >= 2 function parameters, >= 2 rules, "
@@ -43,16 +43,17 @@ def setup():
 
 # ================================================================================================ programs
 class Case:
-    __slots__ = ("id", "tag", "roots", "files", "budget", "stat", "matching", "nontrivial", "command", "corpus")
+    __slots__ = ("id", "tag", "roots", "files", "budget", "stat", "matching", "nontrivial", "command", "corpus", "expected_symbols")
 
     def __init__(self, tag, roots, files, budget=10, stat=1, matching=1, command=None, corpus=None):
         self.tag, self.roots, self.files, self.budget, self.stat, self.matching = tag, list(roots), dict(files), budget, stat, matching
         self.command, self.corpus = command, corpus
         self.id = None
         self.nontrivial = True
+        self.expected_symbols = None
 
     def line(self, mode, k):
-        return "A\t%s\t%d\t%d\t%d\t%d\t%s\t%s" % (
+        return "A\t%s\t%s\t%d\t%d\t%d\t%s\t%s" % (
             mode, k, self.budget, self.stat, self.matching, ",".join(vlib.hx(r) for r in self.roots),
             ";".join("%s=%s" % (vlib.hx(n), (d if isinstance(d, bytes) else d.encode()).hex()) for n, d in self.files.items()))
 
@@ -117,12 +118,13 @@ def corpus_cases():
 
 def generated_cases(chk):
     quick = chk.tier == "quick"
-    scale = 1 if quick else 6
+    scale = 1 if quick else 4
     out = []
     r = chk.rng.fork("g-c10")
     for _ in range(260 * scale):
-        roots, files, tag = c10_gen.symbols(r)
+        roots, files, tag, expected = c10_gen.symbols(r)
         out.append(Case("g-c10/" + tag, roots, files))
+        out[-1].expected_symbols = expected
     for _ in range(300 * scale):
         roots, files, tag, budget = c10_gen.asm_blocks(r)
         out.append(Case("g-c10/" + tag, roots, files, budget=budget, stat=0 if r.chance(0.25) else 1))
@@ -223,13 +225,14 @@ def first_difference(a, b):
 def stream_inprocess(chk, cases, lines_of, bins, K, stream, what_of, replay_of, verbose_line_of):
     """cases: list of objects; lines_of(c, mode, K) -> wire line.  Three passes: debug (history A), debug (history B), release (history C)."""
     n = len(cases)
-    passes = [("debug", "histA"), ("debug", "histB"), ("release", "histC")]
+    # (build, history tag, sequential runs, simultaneous threads)
+    passes = [("debug", "histA", K, 16), ("debug", "histB", K, 0), ("release", "histC", max(2, K // 2), 16)]
     digests = [dict() for _ in cases]      # pass name -> first digest
     status = [None] * n
     bad = {}
-    for prof, hist in passes:
+    for prof, hist, kseq, nthr in passes:
         order = chk.rng.fork(stream + "/" + hist).shuffle(list(range(n)))
-        res = vlib.run_lines([bins[prof] + "/determ"], [lines_of(cases[i], "D", K) for i in order], timeout=1500)
+        res = vlib.run_lines([bins[prof] + "/determ"], [lines_of(cases[i], "D", "%d:%d" % (kseq, nthr)) for i in order], timeout=1500)
         for i, a in zip(order, res):
             f = a.split("\t")
             if f[0] != "R" or len(f) < 4:
@@ -239,9 +242,9 @@ def stream_inprocess(chk, cases, lines_of, bins, K, stream, what_of, replay_of, 
             status[i] = status[i] or f[1]
             digests[i][prof + "/" + hist] = seq[0] if seq else "?"
             if len(seq) != 1:
-                bad.setdefault(i, []).append("%s/%s: %d sequential runs in one process gave %d different results (%s)" % (prof, hist, K, len(seq), f[2]))
-            if len(thr) != 1 or (seq and thr and thr[0] != seq[0]):
-                bad.setdefault(i, []).append("%s/%s: 16 simultaneous threads gave %s, the sequential run %s" % (prof, hist, f[3], seq[:1]))
+                bad.setdefault(i, []).append("%s/%s: %d sequential runs in one process gave %d different results (%s)" % (prof, hist, kseq, len(seq), f[2]))
+            if nthr and (len(thr) != 1 or (seq and thr and thr[0] != seq[0])):
+                bad.setdefault(i, []).append("%s/%s: %d simultaneous threads gave %s, the sequential run %s" % (prof, hist, nthr, f[3], seq[:1]))
     dist = {"ok": 0, "err": 0, "other": 0}
     for i, c in enumerate(cases):
         st = status[i]
@@ -260,7 +263,7 @@ def stream_inprocess(chk, cases, lines_of, bins, K, stream, what_of, replay_of, 
         if all("runner died" in m for m in msgs):
             crashed += 1
             # a crash is not a determinism verdict (C03/C19 speak about crashes); re-run alone to see whether IT is deterministic
-            alone = [vlib.run_lines([bins["debug"] + "/determ"], [lines_of(c, "D", 2)], shards=1)[0] for _ in range(2)]
+            alone = [vlib.run_lines([bins["debug"] + "/determ"], [lines_of(c, "D", "2:2")], shards=1)[0] for _ in range(2)]
             if alone[0] == alone[1]:
                 chk.cov.setdefault("crashing_inputs_skipped", []).append(what_of(c)[:120])
                 continue
@@ -271,11 +274,39 @@ def stream_inprocess(chk, cases, lines_of, bins, K, stream, what_of, replay_of, 
         if len(texts) >= 2:
             rep["difference"] = first_difference(texts[0], texts[1])
         chk.violation("%s: %s" % (what_of(c), msgs[0]), rep)
-    chk.count(stream, n, runs=n * (K + 16) * len(passes), **dist)
+    chk.count(stream, n, runs=n * sum(a + b for _, _, a, b in passes), **dist)
     chk.cov["traces_validated_against_impl"] += n * len(passes)
     chk.cov["disagreements_checked"] += len(bad)
     chk.cov[stream + "_crashed_in_runner"] = crashed
     return status
+
+
+# ================================================================================================ symbol order (correspondence for the symbol_format site)
+def stream_symbol_order(chk, cases, status, bins):
+    """Model/HashOrder.v format_symbols = children in declaration-index order at every level.  For the generated symbol
+    programs the generator knows the declaration order; the implementation's `symbols` output must list exactly these
+    names in exactly this order (whatever order the hash maps were iterated in)."""
+    pick = [i for i, c in enumerate(cases) if c.expected_symbols is not None and status[i] == "OK" and (c.budget, c.stat, c.matching) == (10, 1, 1)]
+    res = vlib.run_lines([bins["debug"] + "/determ"], [cases[i].line("V", "1:0") for i in pick])
+    bad = 0
+    for i, a in zip(pick, res):
+        c = cases[i]
+        f = a.split("\t")
+        names = None
+        if len(f) >= 3 and f[0] == "V":
+            t = bytes.fromhex(f[2]).decode("utf-8", "replace")
+            m = re.search(r"--- format symbols\n(.*?)\n--- format mesen-mlb", t, re.S)
+            if m:
+                names = [l.split(" = ")[0] for l in m.group(1).split("\n") if " = " in l]
+        if names != c.expected_symbols:
+            bad += 1
+            rep = c.replay()
+            rep.update({"kind": "symbol-order", "stream": "symbol-order", "impl_names": names, "declaration_order": c.expected_symbols,
+                        "theorems": ["C10_site_symbol_format_tree", "C10_site_symbol_children"]})
+            chk.violation("the symbols output of %r does not list the symbols in declaration order (model: children sorted by declaration index)" % (c.roots,), rep)
+    chk.count("symbol-order", len(pick), listed=sum(len(cases[i].expected_symbols) for i in pick))
+    chk.cov["traces_validated_against_impl"] += len(pick)
+    chk.cov["disagreements_checked"] += bad
 
 
 # ================================================================================================ fresh processes
@@ -378,13 +409,16 @@ def stream_fresh(chk, cases, status, real, k):
     quick = chk.tier == "quick"
     idx = [i for i, c in enumerate(cases) if disk_ok(c)]
     r = chk.rng.fork("fresh")
-    if quick and len(idx) > 300:
-        # a third corpus, the rest generated, failing programs over-represented (their diagnostics are what varies)
+    limit = 300 if quick else 3000
+    if len(idx) > limit:
+        # a third corpus (thorough: all of it), the rest generated, failing programs over-represented (their diagnostics are what varies)
         corp = [i for i in idx if cases[i].tag == "corpus"]
         gen = [i for i in idx if cases[i].tag != "corpus"]
         errs = [i for i in gen if status[i] == "ERR"]
         oks = [i for i in gen if status[i] != "ERR"]
-        idx = sorted(set(r.shuffle(corp)[:100] + r.shuffle(errs)[:90] + r.shuffle(oks)[:110]))
+        nc = 100 if quick else len(corp)
+        ne = (limit - min(nc, len(corp))) * 9 // 20
+        idx = sorted(set(r.shuffle(corp)[:nc] + r.shuffle(errs)[:ne] + r.shuffle(oks)[:limit - min(nc, len(corp)) - ne]))
 
     def work(i):
         c = cases[i]
@@ -450,8 +484,8 @@ def stream_cli(chk, bins, real, K, k):
     for o in objs:
         if o.s.count(",") >= 2:
             chk.nontriv(("fmt", o.s))
-    stream_inprocess(chk, objs, lambda o, mode, kk: "F\t%s\t%d\t%s" % (mode, kk, vlib.hx(o.s)), bins, K, "format-strings",
-                     lambda o: "-f %r" % o.s, lambda o: {"format": o.s}, lambda o: "F\tV\t1\t%s" % vlib.hx(o.s))
+    stream_inprocess(chk, objs, lambda o, mode, kk: "F\t%s\t%s\t%s" % (mode, kk, vlib.hx(o.s)), bins, K, "format-strings",
+                     lambda o: "-f %r" % o.s, lambda o: {"format": o.s}, lambda o: "F\tV\t1:0\t%s" % vlib.hx(o.s))
     # fresh processes: format strings with >= 2 parameters, and whole command lines
     pick = chk.rng.fork("fmtreal").shuffle(many)[:150 if quick else 3000]
     cmds, spell = cli_gen.command_cases(chk.rng.fork("cmd"), t, quick, c18.CMD_INPUTS)
@@ -530,7 +564,8 @@ def run(chk):
     chk.cov["program_sources"] = tags
     status = stream_inprocess(chk, cases, lambda c, mode, kk: c.line(mode, kk), bins, K, "programs-in-process",
                               lambda c: "%s %r (budget %d, static %d, matching %d)" % (c.corpus or c.tag, c.roots, c.budget, c.stat, c.matching),
-                              lambda c: c.replay(), lambda c: c.line("V", 1))
+                              lambda c: c.replay(), lambda c: c.line("V", "1:0"))
+    stream_symbol_order(chk, cases, status, bins)
     timing["in_process"] = round(time.time() - t0, 1)
     stream_fresh(chk, cases, status, real, k)
     timing["fresh"] = round(time.time() - t0, 1)
@@ -558,7 +593,7 @@ def replay(chk, rep):
     exe = bins["debug"] + "/determ"
     kind = r.get("kind")
     if kind == "in-process" and "format" in r:
-        line = "F\tD\t8\t%s" % vlib.hx(r["format"])
+        line = "F\tD\t8:16\t%s" % vlib.hx(r["format"])
         print("format string %r\nrecorded: %s" % (r["format"], r.get("observations")))
         for i in range(3):
             print("now (fresh harness process %d): %s" % (i, vlib.run_lines([exe], [line], shards=1)[0]))
@@ -572,8 +607,8 @@ def replay(chk, rep):
         c = Case(r.get("tag", "replay"), r["roots"], files, r.get("budget", 10), r.get("static", 1), r.get("matching", 1))
         print("program %r (budget %s static %s matching %s)\nrecorded: %s" % (r["roots"], c.budget, c.stat, c.matching, r.get("observations")))
         for i in range(3):
-            print("now (fresh harness process %d): %s" % (i, vlib.run_lines([exe], [c.line("D", 8)], shards=1)[0]))
-        texts = diff_texts(exe, c.line("V", 1))
+            print("now (fresh harness process %d): %s" % (i, vlib.run_lines([exe], [c.line("D", "8:16")], shards=1)[0]))
+        texts = diff_texts(exe, c.line("V", "1:0"))
         if len(texts) >= 2:
             print("two canonical texts differ: %s" % json.dumps(first_difference(texts[0], texts[1]), indent=1))
     elif kind == "fresh-process":
